@@ -38,7 +38,11 @@ Unit(u, x, y) ==
     [] u = 26 -> <<Id(x), Tok("chain", "."), Tok("prop", "*")>>
     [] u = 27 -> <<Id(x), Tok("chain", "@"), Tok("prop", "<")>>
     [] u = 28 -> <<Id(x), Tok("chain", "."), Tok("prop", "/")>>
-NUnits == 28
+    \* a whole conditional written in parentheses (the parentheses leave no node in the tree: the grouping must survive on its own)
+    [] u = 29 -> <<LP, Id(x), Tok("if", "if"), Id(y), Tok("else", "else"), Tok("int", "1"), RP>>
+    [] u = 30 -> <<LP, Id(x), Tok("if", "if"), Id(y), RP>>
+    [] u = 31 -> <<LP, Id(x), Tok("asg", ":="), Id(y), RP>>
+NUnits == 31
 NConn == Len(InfixOps) + 5
 Conn(c) == IF c <= Len(InfixOps) THEN Inf(InfixOps[c])
            ELSE CASE c = Len(InfixOps) + 1 -> Tok("asg", ":=")
